@@ -500,6 +500,10 @@ theorem scr_flags (dc : DrawCfg) (wd : ScrW) (op : ScrOp) (h1 : op ≠ .show) (h
     (wd.step dc op).1.s.cursorShaped = wd.s.cursorShaped ∧ (wd.step dc op).1.s.cursorTinted = wd.s.cursorTinted := by
   cases op <;> simp_all [ScrW.step] <;> split <;> simp
 
+theorem fixW_flags (on : Bool) (wd : ScrW) :
+    (fixW on wd).s.cursorShaped = wd.s.cursorShaped ∧ (fixW on wd).s.cursorTinted = wd.s.cursorTinted := by
+  unfold fixW; split <;> exact ⟨rfl, rfl⟩
+
 /-- the ghost of the invariant: the title the terminal showed when the current session was engaged -/
 def ghost (st : MState) (r : Regs) (g : Bytes) : MOp → Bytes
   | .resume => if st.running then g else r.title
@@ -600,17 +604,22 @@ theorem step_inv (hp : Paired ad) (st : MState) (r : Regs) (g : Bytes) (base : L
       | «show» =>
         simp only [scrStep, hrun, if_true, ScrW.step, Scr.show]
         split
-        · exact inv_silent ad v a hinv _ (by simp [silentEv]) hrun.symm ⟨rfl, rfl⟩
-        · exact inv_frame ad v a rw payload corner hp hinv hrun rfl (st.wd.s.resize (some (st.wd.ttyw, st.wd.ttyh)))
-            (resize_flags _ _) rfl
+        · exact inv_silent ad v a hinv _ (by simp [silentEv]) hrun.symm (fixW_flags _ _)
+        · have ff := fixW_flags currentResizeChecksCells st.wd
+          have rf := resize_flags (fixW currentResizeChecksCells st.wd).s
+            (some ((fixW currentResizeChecksCells st.wd).ttyw, (fixW currentResizeChecksCells st.wd).ttyh))
+          exact inv_frame ad v a rw payload corner hp hinv hrun rfl _ ⟨rf.1.trans ff.1, rf.2.trans ff.2⟩ rfl
       | sync =>
         simp only [scrStep, hrun, if_true, ScrW.step, Scr.sync]
         split
-        · exact inv_silent ad v a hinv _ (by simp [silentEv]) hrun.symm (by simp [Scr.forgetCursor])
-        · refine inv_frame ad v a rw payload corner hp hinv hrun rfl (st.wd.s.prepSync (some (st.wd.ttyw, st.wd.ttyh))) ?_ rfl
-          have := resize_flags st.wd.s.forgetCursor (some (st.wd.ttyw, st.wd.ttyh))
+        · have ff := fixW_flags currentResizeChecksCells st.wd
+          exact inv_silent ad v a hinv _ (by simp [silentEv]) hrun.symm (by simp [Scr.forgetCursor, ff.1, ff.2])
+        · have ff := fixW_flags currentResizeChecksCells st.wd
+          have rf := resize_flags (fixW currentResizeChecksCells st.wd).s.forgetCursor
+            (some ((fixW currentResizeChecksCells st.wd).ttyw, (fixW currentResizeChecksCells st.wd).ttyh))
+          refine inv_frame ad v a rw payload corner hp hinv hrun rfl _ ?_ rfl
           simp only [Scr.prepSync]
-          exact ⟨this.1, this.2⟩
+          exact ⟨rf.1.trans ff.1, rf.2.trans ff.2⟩
       | ttyResizeNotify w h => simp only [scrStep]; exact inv_silent ad v a hinv [] (by simp) rfl ⟨rfl, rfl⟩
       | setContent x y m c s0 =>
         simp only [scrStep]; exact inv_silent ad v a hinv [] (by simp) rfl (scr_flags _ _ _ (by simp) (by simp) (by simp))
